@@ -116,6 +116,63 @@ def search_report(seed, n):
         r2 = quiet_optimize(g2, tol=tol, max_iter=mi, fix_first_pose=ffp, verbose=True)
         if not same_bits(poses(g), poses(g2)) or r2.num_iterations != r.num_iterations or not same(float(r2.final_chi2), float(r.final_chi2)):
             return w("verbose_changes_result"), ev
+        # the stopping rule exactly at its boundary: tol just above / at the relative decrease of a deciding iteration j,
+        # with max_iter = j (the decision is taken after the loop) and max_iter = j + 2 (taken inside the loop)
+        if scenario == "plain" and len(chis) >= 2:
+            gfull = G.rebuild(desc)
+            depth = max(n_it, min(mi, 4))
+            seq = [chi0]
+            for j2 in range(1, depth + 1):
+                gj = G.rebuild(desc)
+                quiet_optimize(gj, tol=0.0, max_iter=j2, fix_first_pose=ffp)
+                seq.append(float(gj.calc_chi2()))
+            del gfull
+            j = rng.randrange(1, depth + 1)
+            prev, cur = seq[j - 1], seq[j]
+            if all(map(math.isfinite, seq)) and cur < prev:
+                dj = (prev - cur) / (prev + EPS)
+                alt = (prev - cur) / (cur + EPS)  # the same decrease measured against the wrong chi2
+                cands = [float(np.nextafter(dj, np.inf)), dj, dj * (1 + 1e-9), 0.5 * (dj + alt) if alt > dj else dj * (1 + 1e-6)]
+                for tb in cands:
+                    for mib in (j, j + 2):
+                        gb_ = G.rebuild(desc)
+                        rb_ = quiet_optimize(gb_, tol=tb, max_iter=mib, fix_first_pose=ffp)
+                        ev += 1
+
+                        def stopb(i):
+                            return seq[i] <= seq[i - 1] and (seq[i - 1] - seq[i]) / (seq[i - 1] + EPS) < tb
+
+                        lim = min(mib, len(seq) - 1)
+                        firstb = next((i for i in range(1, lim + 1) if i < mib and stopb(i)), None)
+                        if firstb is None and mib > lim:
+                            continue  # the run goes beyond the states computed here
+                        exp_n = firstb if firstb is not None else mib
+                        exp_conv = True if firstb is not None else bool(stopb(mib))
+                        if rb_.num_iterations != exp_n or bool(rb_.converged) != exp_conv:
+                            return w("boundary_rule", boundary_tol=tb, boundary_max_iter=mib, deciding_iteration=j, chi2_sequence=seq, reported=dict(num_iterations=rb_.num_iterations, converged=bool(rb_.converged)),
+                                     expected=dict(num_iterations=exp_n, converged=exp_conv)), ev
+        # no hidden state across calls: after a run, the caller changes what is visible (fixes a further vertex, releases one,
+        # keeps at least one fixed) - the next call must behave exactly like the first call on a fresh Graph built from the same
+        # visible state (poses, flags, edges)
+        if scenario == "plain" and all(np.all(np.isfinite(p)) for p in poses(g)):
+            fr = [v for v in g._vertices if not v.fixed]
+            fx = [v for v in g._vertices if v.fixed]
+            if fr and rng.random() < 0.7:
+                rng.choice(fr).fixed = True
+            if len(fx) > 1 and rng.random() < 0.5:
+                rng.choice(fx).fixed = False
+            d2 = dict(desc)
+            d2["vertices"] = [dict(vd, vals=np.asarray(v.pose).tolist(), fixed=bool(v.fixed)) for vd, v in zip(desc["vertices"], g._vertices)]
+            gfresh = G.rebuild(d2)
+            for vf, v in zip(gfresh._vertices, g._vertices):
+                vf.pose[:] = np.asarray(v.pose)  # identical bits (the SE(2) constructor re-wraps the angle)
+            kk = rng.randrange(1, 4)
+            ra = quiet_optimize(g, tol=0.0, max_iter=kk, fix_first_pose=False)
+            rf = quiet_optimize(gfresh, tol=0.0, max_iter=kk, fix_first_pose=False)
+            ev += 1
+            if all(np.all(np.isfinite(p)) for p in poses(gfresh)):
+                if not same_bits(poses(g), poses(gfresh)) or not same(float(ra.final_chi2), float(rf.final_chi2)):
+                    return w("hidden_state_across_calls", iterations=kk, used_graph_final_chi2=float(ra.final_chi2), fresh_graph_final_chi2=float(rf.final_chi2), state=d2), ev
         # split run (tol = 0): k1 then k2 iterations == k1 + k2 iterations
         k1 = rng.randrange(1, 4)
         k2 = rng.randrange(1, 4)
@@ -427,7 +484,7 @@ def search_linear(seed, n):
                 v["vals"] = [x + rng.gauss(0, scale) for x in v["vals"]]
         g = G.rebuild(desc)
         # how the caller built the objects must not matter (the initial guess is arbitrary for linear graphs):
-        build = rng.choice(["plain", "plain", "shared-origin", "view-of-measurement", "reused-edges"])
+        build = rng.choice(["plain", "plain", "shared-origin", "view-of-measurement", "reused-edges", "prior-call", "prior-call"])
         if build == "shared-origin":
             # every vertex starts from one `origin` pose object (Vertex keeps the caller's object)
             origin = g._vertices[0].pose
@@ -450,6 +507,22 @@ def search_linear(seed, n):
             vs = [_Vertex(v["id"], G.mk_pose(v["cls"], [x + (0.0 if v["fixed"] else rng.gauss(0, 50.0)) for x in v["vals"]]), fixed=bool(v["fixed"])) for v in desc["vertices"]]
             rng.shuffle(vs)
             g = _Graph(list(g._edges), vs)
+        elif build == "prior-call":
+            # the graph object was optimised before with another anchor: a fixed vertex is released, a free one is pinned
+            # (re-anchoring the map), the free estimates are scrambled; "any fixed subset, whatever the initial guess"
+            quiet_optimize(g, tol=1e-9, max_iter=rng.randrange(1, 4), fix_first_pose=rng.random() < 0.5)
+            fx = [v for v in g._vertices if v.fixed]
+            fr = [v for v in g._vertices if not v.fixed]
+            if fx and fr:
+                rng.choice(fx).fixed = False
+                rng.choice(fr).fixed = True
+                if rng.random() < 0.5 and len(fx) > 1:
+                    rng.choice(fx).fixed = False
+                if not any(v.fixed for v in g._vertices):
+                    g._vertices[0].fixed = True
+            for v in g._vertices:
+                if not v.fixed:
+                    v.pose = type(v.pose)(np.asarray(v.pose) + np.array([rng.gauss(0, scale) for _ in range(len(v.pose))]))
         dim = 2 if world == "r2" else 3
         idx = {v.id: i for i, v in enumerate(g._vertices)}
         nV = len(g._vertices)
